@@ -56,14 +56,14 @@ contract(NTY + "._look_for_tokens", params={"str_line": Str}, returns=List(Str),
 # ---- lines handed to the tokenizer when the graph arrives as a raw string (C06, C08) -----------------------------------------------------
 import z3 as _z3
 RSL = "shexer.io.line_reader.raw_string_line_reader:RawStringLineReader"
-schema("RawLines", [RSL], {"_raw_string": Str})
+RawLines = schema("RawLines", [RSL], {"_raw_string": Str}, register=False)
 regex("ascii_blank", _z3.Star(_z3.Union(_z3.Re(" "), _z3.Re("\t"), _z3.Re("\n"), _z3.Re("\r"))))
 StrList = spectype("StrList", List(Str))
 specfun("n_nonblank", [StrList, Int], Int,
         axioms=["forall(StrList, lambda L: n_nonblank(L, 0) == 0)",
                 "forall(StrList, Int, lambda L, i: implies(i >= 0, n_nonblank(L, i + 1) == n_nonblank(L, i) + ite(in_re(L[i], 'ascii_blank'), 0, 1)))"])
 PARTS = "py_split(self._raw_string, '\\n')"
-contract(RSL + ".read_lines", params={}, yields=Str,
+contract(RSL + ".read_lines", params={}, yields=Str, self_type=RawLines,
     ensures=["len(result) == n_nonblank(%s, len(%s))" % (PARTS, PARTS),
              "forall(Int, lambda k: implies(0 <= k and k < len(%s) and not in_re(%s[k], 'ascii_blank'), result[n_nonblank(%s, k)] == %s[k]))" % ((PARTS,) * 4)],
     raises=[], modifies=[],
